@@ -10,9 +10,9 @@ CLASSES = {"union-firstmatch-lossy": "-", "union-prim-coercion": "-",
            # classes of the shared converter oracle that belong to C16 / C03
            # (leaf-uuid-unsupported / leaf-time-unsupported - F10, repaired - are not listed: a UUID / time value that does not decode
            #  or is left in the serializer's output is a violation here as well)
-           # (serializer-cycle-recursion - F26, repaired - is not listed either: a cyclic graph that ends in RecursionError is a violation)
-           "error-path-lost-through-optional": "F49",
-           "serializer-dict-leaks-instance": "F48", "serializer-registry-dependent": "F48"}
+           # (serializer-cycle-recursion - F26, repaired - is not listed either: a cyclic graph that ends in RecursionError is a violation;
+           #  nor are serializer-dict-leaks-instance / serializer-registry-dependent - F48, repaired)
+           "error-path-lost-through-optional": "F49"}
 
 
 class _Scoped:
@@ -31,7 +31,7 @@ class _Scoped:
 def check(run, ctx) -> None:
     known = findings.Known(run, PROP)
     g.run_corr(run, ctx, CORR, "Conv (structure/unstructure/_structure_union/serializer vs the real converter)", quick=1.0, thorough=8.0)
-    g.replay_witnesses(run, known, {"F48": CORR, "F49": CORR})
+    g.replay_witnesses(run, known, {"F49": CORR})
     g.run_oracle(run, ctx, _Scoped(known, CLASSES), CORR, "converter laws on the real converter (random dataclass type trees, unions, payloads)", CLASSES, quick=1.0, thorough=8.0)
     known.report_unreplayed()
 
